@@ -310,6 +310,18 @@ impl WriteBuffer {
         self.fault_scope
     }
 
+    /// `(entries pending per shard, retirements pending, worker count)`.
+    #[cfg(feoxdb_verif)]
+    pub fn verif_pending(&self) -> (Vec<usize>, usize, usize) {
+        let shards = self
+            .sharded_buffers
+            .iter()
+            .map(|shard| shard.count.load(Ordering::Relaxed))
+            .collect();
+        let retirements = self.retirement_queue.pending.lock().len();
+        (shards, retirements, self.worker_channels.len())
+    }
+
     /// Add write operation to buffer (lock-free fast path)
     pub fn add_write(
         &self,
